@@ -42,7 +42,8 @@ Inductive side :=
     (* WithdrawFromSideChain: V0 records payload.SideChainTransactionHashes,
        V1/V2 record the hash of every OTWithdrawFromSideChain output *)
 | SRetDep (hashes : list N)     (* ReturnSideChainDepositCoin outputs *)
-| SDraft (ds : list (N * N)).   (* CRCProposal / Review / Tracking: (hash, data) in put order *)
+| SDraft (ds : list (N * N))    (* CRCProposal / Review / Tracking: (hash, data) in put order *)
+| SPow (genesis : N).           (* SideChainPow with inputs: side-chain genesis hash (mempool replacement key) *)
 
 Record tx := mkTx {
   t_id : N; t_cb : bool; t_lock : N;
@@ -413,11 +414,26 @@ Definition pool_remove (p : pool) (t : tx) : pool :=
   | None => p
   end.
 
-(* appendToTxPool: sanity, context against the ledger, conflict slot, then add *)
+(* replaceDuplicateSideChainPowTx: a SideChainPow transaction evicts the pool's
+   SideChainPow transactions of the same side chain (before the slot check,
+   and whether or not that check then succeeds) *)
+Definition same_pow (g : N) (x : tx) : bool := match t_side x with SPow g' => g' =? g | _ => false end.
+Definition pool_replace_pow (p : pool) (t : tx) : pool :=
+  match t_side t with
+  | SPow g => fold_left (fun p x => if same_pow g x then pool_remove p x else p) (p_txs p) p
+  | _ => p
+  end.
+
+(* appendToTxPool: duplicate, sanity, context against the ledger,
+   verifyTransactionWithTxnPool (SideChainPow replacement, then the conflict
+   slots for every transaction type), then add *)
 Definition pool_append (mat cur : N) (s : state) (p : pool) (t : tx) : pool * bool :=
   if existsb (fun x => t_id x =? t_id t) (p_txs p) then (p, false) else
-  if tx_sanity_ok t && tx_context_ok mat cur s t && negb (existsb (slot_has p) (t_ins t))
-  then (mkPool (p_txs p ++ [t]) (p_slot p ++ map (fun op => (op, t_id t)) (t_ins t)), true)
+  if tx_sanity_ok t && tx_context_ok mat cur s t then
+    let p1 := pool_replace_pow p t in
+    if negb (existsb (slot_has p1) (t_ins t))
+    then (mkPool (p_txs p1 ++ [t]) (p_slot p1 ++ map (fun op => (op, t_id t)) (t_ins t)), true)
+    else (p1, false)
   else (p, false).
 
 (* cleanTransactions (CleanSubmittedTransactions) for one connected block *)
